@@ -9,6 +9,7 @@ import numpy as np
 from vf.tx import amax as _amax
 
 from vf.core import Workload
+from vf.digest import digest
 from vf import taps, gen, tx
 
 ID = "C20"
@@ -134,9 +135,9 @@ class QuaternionMonitor(taps.Monitor):
 
     def pre(self, ctx, args, kw):
         q = np.asarray(args[1] if len(args) > 1 else kw.get("q"), dtype=float)
-        if q.shape != (4,) or abs(np.linalg.norm(q) - 1) > 1e-9 or q[0] <= 1e-6:
+        if q.shape != (4,) or abs(np.linalg.norm(q) - 1) > 1e-9 or q[0] < -1e-12 or (0 < abs(q[0]) <= 1e-6):
             return None
-        return {"q": q.copy()}
+        return {"q": q.copy(), "half_turn": bool(abs(q[0]) <= 1e-12)}
 
     def post(self, ctx, st, args, kw, r, exc):
         if exc is not None:
@@ -146,8 +147,9 @@ class QuaternionMonitor(taps.Monitor):
         if not (e <= 1e-9):
             ctx.fail("quaternion_constructor_builds_the_wrong_rotation", cls="Rotation", err=float(e))
         back = np.asarray(r.as_vector())
-        if _amax(back - st["q"]) > 1e-8:
-            ctx.fail("quaternion_does_not_round_trip", cls="Rotation", given=st["q"], got=back)
+        # (a half turn has scalar part 0: q and -q are the same rotation and equally canonical)
+        if _amax(back - st["q"]) > 1e-8 and not (st["half_turn"] and _amax(back + st["q"]) <= 1e-8):
+            ctx.fail("quaternion_does_not_round_trip", cls="Rotation", mech="half_turn" if st["half_turn"] else "", given=st["q"], got=back)
 
 
 class ScaleMonitor(taps.Monitor):
@@ -211,6 +213,7 @@ class AboutCentreMonitor(taps.Monitor):
             import menpo.transform as mt
             if not taps.is_menpo(tr):
                 return None
+            st["arg"], st["arg_digest"] = tr, digest(tr)
             if isinstance(tr, mt.Homogeneous) and _amax(np.asarray(tr.h_matrix, dtype=float)[-1, :-1]) == 0:
                 h = np.asarray(tr.h_matrix, dtype=float)
                 st["A"], st["b"] = h[:d, :d].copy(), h[:d, d].copy()
@@ -247,6 +250,8 @@ class AboutCentreMonitor(taps.Monitor):
     def post(self, ctx, st, args, kw, t, exc):
         obj = args[0] if args else kw.get("obj")
         cls = type(obj).__name__
+        if "arg_digest" in st and digest(st["arg"]) != st["arg_digest"]:
+            ctx.fail("about_centre_builder_modified_the_transform_it_was_given", cls=type(st["arg"]).__name__, mech=self.which)
         if st.get("refuse"):
             if not isinstance(exc, ValueError):
                 ctx.fail("non_2d_object_not_refused", cls=cls, mech=self.which)
@@ -350,6 +355,9 @@ def w_rotations(ctx, rng, i):
         R.init_3d_from_quaternion(q)
         from props.c05 import unit_quaternion
         R.init_3d_from_quaternion(unit_quaternion(rng))
+        hv = rng.normal(size=3)
+        hv /= np.linalg.norm(hv)
+        R.init_3d_from_quaternion(np.concatenate([[0.0], hv]) if rng.random() < 0.6 else np.array([[0, 1, 0, 0], [0, 0.6, 0.8, 0], [0, 0, 0, 1.0]][rng.integers(0, 3)]))   # exact half turns
         str(rr)        # the textual description goes through the axis/angle report too
         # rotations about special axes (space diagonals, face diagonals, the coordinate axes): Rodrigues' formula
         ax = np.array([[1, 1, 1], [-1, -1, -1], [1, -1, 1], [1, 1, 0], [0, 1, 1], [1, 0, 0], [0, 0, -1], [1, 1, -1]][rng.integers(0, 8)], dtype=float)
@@ -407,6 +415,9 @@ def w_about_centre(ctx, rng, i):
             else:
                 tr = mt.TransformChain([mt.Rotation(gen.rotation_matrix(rng, d)), mt.NonUniformScale(rng.uniform(0.3, 3, d))])
         mt.transform_about_centre(obj, tr)
+        if rng.random() < 0.5:
+            # the caller's transform is used again for another object (one shear / similarity applied about the centre of each shape)
+            mt.transform_about_centre(gen.shape(rng, None, d=d), tr)
     elif which == "scale":
         if rng.random() < 0.5:
             mt.scale_about_centre(obj, float(rng.uniform(0.2, 4)))
